@@ -55,7 +55,7 @@ theorem evalRow_single : ∀ (e : Vec) (k : Nat), evalRow e (Pi.single k 1) = ((
   | a :: as, 0 => by
     have h : (fun i => (Pi.single 0 1 : Nat → Rat) (i + 1)) = fun _ => 0 := by
       funext i; simp
-    simp [evalRow, evalRow_zero_fun]
+    simp [evalRow, evalRow_zero_funM]
   | a :: as, k + 1 => by
     have h : (fun i => (Pi.single (k + 1) 1 : Nat → Rat) (i + 1)) = Pi.single k 1 := by
       funext i; simp [Pi.single_apply]
